@@ -107,3 +107,50 @@ def _(c):
     c.returns(lambda a, r: True)
     c.raises(_ipde())
     c.min_obligations = 2
+
+
+# ------------------------------------------------------------------------------------------ required fields
+from pyvc.contracts import Gen, OneOf  # noqa: E402
+
+
+class _BuilderG(Gen):
+    """A _Builder whose four required fields are each present or missing (16 combinations)."""
+
+    def make(self, name, b):
+        from pyvc.values import SObj
+        from pyoda_time.time_zones.cldr._windows_zones import WindowsZones
+        from pyoda_time.time_zones.io._tzdb_stream_data import _TzdbStreamData as D
+
+        B = vars(D)["_Builder"]
+        have = [b.pick(f"{name}.{k}", [False, True]) for k in ("pool", "version", "idmap", "windows")]
+        wz = object.__new__(WindowsZones)
+        return SObj(
+            B,
+            {
+                "_string_pool": ("UTC",) if have[0] else None,
+                "_tzdb_version": "2023c" if have[1] else None,
+                "_tzdb_id_map": {"Zulu": "UTC"} if have[2] else None,
+                "_windows_mapping": wz if have[3] else None,
+                "_zone_locations": None,
+                "_zone_1970_locations": None,
+                "_zone_fields": {},
+            },
+            owner=-1,
+            tag=name,
+        )
+
+
+@contract(SD + "__init__", "C20", name="_TzdbStreamData.__init__: a stream lacking any required field (string pool, id map, version, Windows mapping) is rejected with InvalidPyodaDataError; otherwise all four are set")
+def _(c):
+    c.arg("self", Obj("pyoda_time.time_zones.io._tzdb_stream_data:_TzdbStreamData", {})).arg("builder", _BuilderG())
+    c.crosscheck = 0
+    c.replayable = False
+    c.pure = False
+    c.allow_mutation = lambda obj, n: True
+    allp = lambda a: all(V.fld(a.builder, k) is not None for k in ("_string_pool", "_tzdb_version", "_tzdb_id_map", "_windows_mapping"))  # noqa: E731
+
+    def post(a, r, W):
+        return all(W(a.self, "_TzdbStreamData__" + k) is not None for k in ("string_pool", "tzdb_version", "windows_mapping", "tzdb_id_map"))
+
+    c.returns(post, when=allp)
+    c.raises(_ipde(), when=lambda a: not allp(a))
